@@ -198,6 +198,8 @@ pub struct HandlerSnapshot {
     pub active: Vec<(NodeAddress, crate::RequestId, bool, bool, u8, bool)>,
     pub nonce_mappings: usize,
     pub pending: Vec<(NodeAddress, usize)>,
+    /// Ids of the queued requests the handler generated itself (per peer, in queue order).
+    pub pending_internal: Vec<crate::RequestId>,
 }
 
 /// A real `Handler` running on the current tokio runtime, wired to in-memory channels.
